@@ -75,4 +75,3 @@ def run(ctx):
                   f"DynGroup::{fn_} " + ("no longer calls apply_dyngroup_change" if not cs else
                                          "can return success after apply_dyngroup_change was called without propagating its result") + f" — {WHY}",
                   file=rec["file"], line=rec["line"])
-    ctx.floor("K2-dyngroup", "MemberOf hooks routed to DynGroup", len(HOOK_TO_DYN), 5)
